@@ -16,14 +16,20 @@ pub fn def_use(
 
     for location in rd.keys() {
         du.entry(location.clone()).or_default();
-        match location.function_location().apply(function).unwrap() {
+        let rfl = location.function_location().apply(function).unwrap();
+        // The definitions which reach this location before it is executed
+        let rd_in = reaching_definitions::reaching_definitions_in(
+            &rd,
+            &il::RefProgramLocation::new(function, rfl.clone()),
+        )?;
+        match rfl {
             il::RefFunctionLocation::Instruction(_, instruction) => instruction
                 .operation()
                 .scalars_read()
                 .into_iter()
                 .flatten()
                 .for_each(|scalar_read| {
-                    rd[location].locations().iter().for_each(|rd| {
+                    rd_in.locations().iter().for_each(|rd| {
                         rd.function_location()
                             .apply(function)
                             .unwrap()
@@ -43,7 +49,7 @@ pub fn def_use(
             il::RefFunctionLocation::Edge(edge) => {
                 if let Some(condition) = edge.condition() {
                     condition.scalars().into_iter().for_each(|scalar_read| {
-                        rd[location].locations().iter().for_each(|rd| {
+                        rd_in.locations().iter().for_each(|rd| {
                             if let Some(scalars_written) = rd
                                 .function_location()
                                 .apply(function)
